@@ -442,6 +442,7 @@ macro_rules! partial_hessian_case {
 macro_rules! all_for_elem {
     ($acc:expr, $rng:expr, $T:ty, $tname:expr) => {{
         scalar_drivers!($acc, $rng, $T, $tname);
+        vector_drivers!($acc, $rng, $T, $tname, Const<0>, 0, "S0");
         vector_drivers!($acc, $rng, $T, $tname, Const<1>, 1, "S1");
         vector_drivers!($acc, $rng, $T, $tname, Const<2>, 2, "S2");
         vector_drivers!($acc, $rng, $T, $tname, Const<3>, 3, "S3");
@@ -450,6 +451,7 @@ macro_rules! all_for_elem {
         vector_drivers!($acc, $rng, $T, $tname, Const<6>, 6, "S6");
         let nd = $rng.below(7);
         vector_drivers!($acc, $rng, $T, $tname, Dyn, nd, &format!("D{}", nd));
+        jacobian_case!($acc, $rng, $T, $tname, Const<2>, 2, Const<0>, 0, "S2x0");
         jacobian_case!($acc, $rng, $T, $tname, Const<1>, 1, Const<1>, 1, "S1x1");
         jacobian_case!($acc, $rng, $T, $tname, Const<2>, 2, Const<3>, 3, "S2x3");
         jacobian_case!($acc, $rng, $T, $tname, Const<3>, 3, Const<2>, 2, "S3x2");
